@@ -107,10 +107,17 @@ def gen_config(seed, tier='quick', family=None):
         'extra_measurements': wl.random() < 0.4,
         'seed': seed,
         # further option dimensions (swarm): each is off in most runs
-        'group_sites': 2 if (fam in ('tebd', 'tdvp2', 'tdvp1', 'dmrg2', 'expmpo') and L >= 6 and wl.random() < 0.25) else 1,
+        'group_sites': 2 if ((fam in ('tebd', 'tdvp1') or (fam in ('tdvp2', 'dmrg2', 'expmpo') and L >= 6))
+                             and wl.random() < 0.35) else 1,
         'measure_initial': wl.random() > 0.15,
         'save_stats': wl.random() > 0.2,
     }
+    if fam == 'vumps' and cfg['ext'] == '.h5':
+        # Observed on the pinned tree: an HDF5 results file holding a UniformMPS (VUMPS checkpoints) does not load
+        # ("'UniformMPS' object has no attribute 'unit_cell_width'") even when written without any fault.  That is
+        # a save/load round-trip defect (C17's subject, a pure function of the object: outside this technique), so
+        # VUMPS runs use the pickle formats here; see DESIGN.md 9.7.
+        cfg['ext'] = wl.choice(['.pkl', '.pklz'])
     if fam in ('idmrg', 'vumps'):
         cfg['L'] = 2
         cfg['model'] = 'TFIChain'  # gapped (g=1.5): infinite-system runs converge within the few sweeps we do
